@@ -19,6 +19,11 @@ var (
 	// ErrMissingDB indicates that one or more of the utility databases was not provided. The wrapped
 	// error message should indicate which database was missing.
 	ErrMissingDB = errors.New("missing one or more geoip DBs")
+
+	// ErrLookup is returned when a database lookup fails. It replaces the error of the database
+	// library, which quotes the address that was looked up (callers log lookup errors, and the
+	// addresses looked up are client addresses).
+	ErrLookup = errors.New("geoip lookup failed")
 )
 
 // DBConfig contains options used for GeoIP lookup - including paths to database files
@@ -93,7 +98,7 @@ func (mmdb *maxMindDatabase) ASN(ipAddress net.IP) (uint, error) {
 
 	record, err := mmdb.asnReader.ASN(ipAddress)
 	if err != nil {
-		return 0, err
+		return 0, ErrLookup
 	}
 
 	return record.AutonomousSystemNumber, nil
@@ -107,7 +112,7 @@ func (mmdb *maxMindDatabase) CC(ipAddress net.IP) (string, error) {
 
 	record, err := mmdb.ccReader.Country(ipAddress)
 	if err != nil {
-		return "", err
+		return "", ErrLookup
 	}
 	if record == nil {
 		return "unk", nil
